@@ -520,15 +520,109 @@ fn prop(c: &Case, ctx: &Ctx) -> PResult {
     Ok(())
 }
 
+// ------------------------------------------------------------------------------------------------
+// offsets beyond 4 GiB (sparse targets; compared by position, never read whole)
+// ------------------------------------------------------------------------------------------------
+
+/// (command: 0 AddData, 1 DeleteData, 2 ExpandData, 3 AddFile at a byte offset; offset in 128-byte blocks)
+fn far_cases(_: &Ctx) -> Vec<(u8, u32)> {
+    let mut v = vec![];
+    for op in 0..4u8 {
+        for off in [0x0200_0000u32, 0x0200_0004, 0x0400_0010, 0x01FF_FFFF] {
+            v.push((op, off));
+        }
+    }
+    v
+}
+
+fn read_at(f: &std::fs::File, at: u64, len: usize) -> Vec<u8> {
+    use std::os::unix::fs::FileExt;
+    let mut b = vec![0u8; len];
+    let mut got = 0;
+    while got < len {
+        match f.read_at(&mut b[got..], at + got as u64) {
+            Ok(0) | Err(_) => break,
+            Ok(n) => got += n,
+        }
+    }
+    b.truncate(got);
+    b
+}
+
+fn prop_far(c: &(u8, u32), ctx: &Ctx) -> PResult {
+    let (op, off) = *c;
+    let tmp = TmpDir::new("c03far");
+    let root = tmp.join("data");
+    let rel = if op == 3 { "sqpack/ffxiv/big.bin".to_string() } else { dat_path(0, 0x02, 0, 0) };
+    std::fs::create_dir_all(root.join("sqpack/ffxiv")).unwrap();
+    let initial = content(off as u64, 0, 640, 0);
+    std::fs::write(root.join(&rel), &initial).unwrap();
+    let at = off as u64 * 128;
+    let data = content(off as u64, 1, 256, 0);
+    let (chunk, written): (Vec<u8>, Vec<u8>) = match op {
+        0 => {
+            let mut w = data.clone();
+            w.extend_from_slice(&[0u8; 128]);
+            (zp::add_data(0x02, 0, 0, off, &data, 1), w)
+        }
+        1 | 2 => {
+            let mut w = empty_block_header(2);
+            w.resize(256, 0);
+            (zp::delete_or_expand(op == 2, 0x02, 0, 0, off, 2), w)
+        }
+        _ => (zp::file_op(b'A', at, data.len() as u64, 0, &rel, &[zp::file_block(&data, Mode::Raw)]), data.clone()),
+    };
+    let mut bytes = zp::file_header();
+    bytes.extend_from_slice(&zp::target_info(0, -1, false, 0));
+    bytes.extend_from_slice(&chunk);
+    bytes.extend_from_slice(&zp::eof());
+    let patch_path = tmp.join("far.patch");
+    std::fs::write(&patch_path, &bytes).unwrap();
+    let r = guard("ZiPatch::apply", || physis::patch::ZiPatch::apply(root.to_str().unwrap(), patch_path.to_str().unwrap()))?;
+    if let Err(e) = r {
+        return fail("far-offset/apply-error", format!("a command at block offset {:#x} returned Err({:?})", off, e));
+    }
+    // exactly the one file (names only: the file is sparse and several GiB long)
+    let mut names = vec![];
+    for e in std::fs::read_dir(root.join("sqpack/ffxiv")).unwrap().flatten() {
+        names.push(e.file_name().to_string_lossy().to_string());
+    }
+    let want_name = rel.rsplit('/').next().unwrap().to_string();
+    if names != vec![want_name.clone()] {
+        return fail("far-offset/files", format!("files under sqpack/ffxiv after the patch: {:?}, expected only {}", names, want_name));
+    }
+    let f = std::fs::File::open(root.join(&rel)).unwrap();
+    let len = f.metadata().unwrap().len();
+    if len != at + written.len() as u64 {
+        return fail("far-offset/file-length", format!("{} is {} bytes long after a {}-byte write at byte offset {} (= 128 x block offset {:#x})", rel, len, written.len(), at, off));
+    }
+    if read_at(&f, 0, 640) != initial {
+        return fail("far-offset/start-overwritten", format!("the existing first 640 bytes of {} changed (write at block offset {:#x})", rel, off));
+    }
+    if read_at(&f, at, written.len()) != written {
+        return fail("far-offset/content", format!("bytes at offset {} of {} differ from the command's effect", at, rel));
+    }
+    for (from, n) in [(640u64, 65536usize), (at - 65536, 65536), ((at & 0xFFFF_FFFF).max(640), 4096)] {
+        if from + n as u64 <= at && read_at(&f, from, n).iter().any(|b| *b != 0) {
+            return fail("far-offset/stray-write", format!("non-zero bytes in [{}, +{}) of {}, which no command wrote", from, n, rel));
+        }
+    }
+    ctx.classf(format!("far:{}", ["AddData", "DeleteData", "ExpandData", "AddFile"][op as usize]));
+    ctx.classf(format!("far-offset:{}", if at >= 1 << 32 { ">=4GiB" } else { "<4GiB" }));
+    ctx.nontrivial(format!("far{:?}", c).as_bytes());
+    Ok(())
+}
+
 pub fn property() -> Property {
     Property {
         id: "C03",
-        rule: "random part: initial tree of 0..6 files + 0..3 dat files (plus the sqpack/<exp> directories in-place commands need); 1..3 patches applied in sequence, each = TargetInfo (platform in 5 as BE u16, region -1|1) then 0..12 chunks from FHDR v2/v3, APLY, ADIR, DELD, SQPK T/X/I/A/D/E/H/F(AddFile, DeleteFile, RemoveAll, MakeDirTree) over small id/path pools so that commands overlap, then EOF_; AddFile with 0..5 blocks each raw or deflated (stored/fixed/dynamic). exhaustive part: all sequences of length <= 2 (157; thorough <= 3: 1885) over a concrete 12-chunk alphabet. Oracle: in-memory file-system model of the reference semantics; after apply returns Ok the real tree is walked: regular files must match exactly (paths and bytes), directories as required <= actual <= allowed. Non-trivial: >= 2 effectful chunks touching one file, or a multi-block AddFile with a deflated block, or a chain of >= 2 patches; distinct by hash of the case.",
+        rule: "random part: initial tree of 0..6 files + 0..3 dat files (plus the sqpack/<exp> directories in-place commands need); 1..3 patches applied in sequence, each = TargetInfo (platform in 5 as BE u16, region -1|1) then 0..12 chunks from FHDR v2/v3, APLY, ADIR, DELD, SQPK T/X/I/A/D/E/H/F(AddFile, DeleteFile, RemoveAll, MakeDirTree) over small id/path pools so that commands overlap, then EOF_; AddFile with 0..5 blocks each raw or deflated (stored/fixed/dynamic). exhaustive part: all sequences of length <= 2 (157; thorough <= 3: 1885) over a concrete 12-chunk alphabet. far-offsets part: AddData / DeleteData / ExpandData at block offsets 0x01FFFFFF, 0x02000000, 0x02000004, 0x04000010 and AddFile at the same byte offsets on a 640-byte target (sparse result; length, the written range, the old start and samples of the hole are compared by position). Oracle: in-memory file-system model of the reference semantics; after apply returns Ok the real tree is walked: regular files must match exactly (paths and bytes), directories as required <= actual <= allowed. Non-trivial: >= 2 effectful chunks touching one file, or a multi-block AddFile with a deflated block, or a chain of >= 2 patches; distinct by hash of the case.",
         assumptions: &["well-formed domain only: DeleteData after a RemoveAll of the same expansion is emitted as ExpandData; no file/directory name clashes; AddFile size = sum of blocks; block counts >= 1", "ADIR/DELD effects, the MakeDirTree leaf and the directory left behind by RemoveAll are not asserted (Physis documents them as no-ops; statement constrains files)", "no files under movie/<exp> or *.var files are generated (the reference's RemoveAll filter)"],
         pre: None,
         post: None,
         parts: vec![
             Box::new(Part { name: "short-sequences", driver: Driver::Enum(sequences), prop, exhaustive: true }),
+            Box::new(Part { name: "far-offsets", driver: Driver::Enum(far_cases), prop: prop_far, exhaustive: true }),
             Box::new(Part { name: "random-chains", driver: Driver::Gen(strategy, 40_000, 640_000), prop, exhaustive: false }),
         ],
     }
